@@ -82,6 +82,7 @@ class LoopWatch:
         self.default_bound = 100000
         self.return_readers = {}  # code -> callable(frame_locals)
         self.fail_readers = {}    # code -> callable(frame_locals) -> dict, evaluated when a failpoint fires
+        self.frame_hooks = {}     # code -> {"start"|"backedge"|"return": callable(frame)}
         self.fired = None
         self.missing = []
         self.installed = False
@@ -110,6 +111,18 @@ class LoopWatch:
     def on_fail(self, func, reader):
         self.fail_readers[func.__code__] = reader
 
+    def on_frames(self, func, start=None, backedge=None, ret=None):
+        """callbacks that receive the live frame of `func` at its start, at every loop back-edge and at return"""
+        self.frame_hooks[func.__code__] = {"start": start, "backedge": backedge, "return": ret}
+
+    def _hook(self, code, which):
+        h = self.frame_hooks.get(code)
+        if h is not None and h.get(which) is not None:
+            try:
+                h[which](sys._getframe(2))
+            except Exception:   # a hook must never disturb the monitored code
+                pass
+
     def set_bound(self, key_prefix, bound):
         for c in self.codes.values():
             for _, _, key in c["heads"]:
@@ -123,6 +136,8 @@ class LoopWatch:
             self.calls[c["name"]] = self.calls.get(c["name"], 0) + 1
             for off in c["count"]:
                 c["count"][off] = 0
+        if code in self.frame_hooks:
+            self._hook(code, "start")
 
     def _jump(self, code, src, dst):
         if dst >= src:
@@ -130,6 +145,8 @@ class LoopWatch:
         c = self.codes.get(code)
         if c is None or dst not in c["count"]:
             return
+        if code in self.frame_hooks:
+            self._hook(code, "backedge")
         cnt = c["count"]
         cnt[dst] += 1
         n = cnt[dst]
@@ -154,6 +171,8 @@ class LoopWatch:
             raise FailPoint(key, n, b)
 
     def _ret(self, code, offset, retval):
+        if code in self.frame_hooks:
+            self._hook(code, "return")
         r = self.return_readers.get(code)
         if r is not None:
             try:
@@ -181,7 +200,7 @@ class LoopWatch:
         mon.register_callback(t, E.PY_RETURN, self._ret)
         for code in self.codes:
             ev = E.JUMP | E.PY_START
-            if code in self.return_readers:
+            if code in self.return_readers or code in self.frame_hooks:
                 ev |= E.PY_RETURN
             mon.set_local_events(t, code, ev)
         for code in self.return_readers:
@@ -235,6 +254,60 @@ def standard_watch(cap, conv_max, sp2_bound, extra=True):
     if hasattr(sp2m, "SP2"):
         lw.on_fail(sp2m.SP2, sp2_state_reader)
     return lw
+
+
+class SP2SweepLog:
+    """how many purification sweeps every row of every SP2 call needed (a row's count = sweeps in which it was still
+    active), mapped to the molecule rows of the SCF batch through the `notconverged` mask of the calling
+    scf_forward* frame.  `rows[b]` = list of sweep counts of molecule b, one per SCF iteration it took part in."""
+
+    def __init__(self):
+        self.rows = {}
+        self.calls = 0
+        self.uneven_calls = 0
+        self.max_spread = 0
+        self._cur = None
+
+    def attach(self, lw, sp2func):
+        lw.on_frames(sp2func, start=self._start, backedge=self._back, ret=self._ret)
+
+    def _start(self, frame):
+        self._cur = None
+
+    def _back(self, frame):
+        nc = frame.f_locals.get("notconverged")
+        if torch.is_tensor(nc):
+            a = nc.detach().numpy().astype(int)
+            if self._cur is None or len(self._cur) != len(a):
+                self._cur = np.ones(len(a), int)
+            self._cur = self._cur + a
+
+    def _ret(self, frame):
+        cur = self._cur
+        if cur is None:
+            a = frame.f_locals.get("a")
+            cur = np.ones(int(a.shape[0]) if torch.is_tensor(a) else 1, int)
+        self._cur = None
+        rows = None
+        f = frame.f_back
+        for _ in range(8):
+            if f is None:
+                break
+            if f.f_code.co_name.startswith("scf_forward"):
+                m = f.f_locals.get("notconverged")
+                if torch.is_tensor(m):
+                    rows = torch.nonzero(m.detach()).reshape(-1).tolist()
+                break
+            f = f.f_back
+        if rows is None or len(rows) != len(cur):
+            rows = list(range(len(cur)))
+        for b, n in zip(rows, cur.tolist()):
+            self.rows.setdefault(int(b), []).append(int(n))
+        self.calls += 1
+        spread = int(cur.max() - cur.min()) if len(cur) else 0
+        if spread > 0:
+            self.uneven_calls += 1
+        self.max_spread = max(self.max_spread, spread)
 
 
 def sp2_state_reader(loc):
